@@ -9,6 +9,11 @@
       compute_accuracy (which count vectors reach which score function, the order of the 14 returned values); the
       statements before it are not translated, and the variables the suffix reads from them are its parameters
 
+Second group (table `callee_sigs2`, proofs in Proofs/MoreFuncsTie.v):
+  chord.overseg / underseg / seg, util.intervals_to_boundaries / intervals_to_durations / boundaries_to_intervals,
+  segment.deviation; here a few NumPy functions are callees too (np.round, np.ravel, np.unique, np.diff, np.abs,
+  np.allclose, np.subtract.outer, np.median, x.flatten(), x.min(axis)); their signatures are fixed in NUMPY below.
+
 Every call of a known function is kept AS WRITTEN (positional arguments, keyword arguments by name), and the
 signature of every callee (parameter names in order, literal defaults) is read from the source in the same run and
 emitted as `callee_sigs`; the binding of arguments to parameters is done in Coq (WrapExp.bind_args), so an argument
@@ -19,8 +24,12 @@ Accepted fragment
   statements   x = <expr> | x = <call> | x1, ..., xk = <call> | <call> | if <expr>: <block> [else: <block>] | return <expr> / <tuple>
                raise <BuiltinError>(...) | warnings.warn(<string literal>) (dropped)
   expressions  names, int / float / bool / None literals, len(x), x.size, float(x), a / b, one comparison,
-               and / or / not, x[1:-1]; a <call> may also occur inside a return expression provided nothing that
+               and / or / not, x[1:-1], x[:-1], x[1:], a - b, min(a, b), np.nan, np.asarray(list(zip(a, b))); a <call> may also occur inside a return expression provided nothing that
                can raise is evaluated before it (it is then bound to a temporary first)
+  loops        (second group) for v1, ..., vk in zip(s1, ..., sk): <body> where the body consists of if / else,
+               x = <expr>, x1, ..., xm = (e1, ..., em), l.append([a, b]), l[-1][-1] = a; the variables of the
+               enclosing scope that the body assigns are the loop state; a[:, 0], a[:, 1], (a != b).any(), [], None,
+               np.array(l)
   <call>       f(...) with f a top-level function of the same module, or m.f(...) with m bound by `from . import m`,
                f among CALLEES; arguments: expressions, keyword arguments by name (no * / **)
 """
@@ -39,6 +48,13 @@ SPEC = [('transcription', 'precision_recall_f1_overlap', 'gen_tr_precision_recal
         ('beat', 'f_measure', 'gen_beat_f_measure', None),
         ('segment', 'detection', 'gen_segment_detection', None),
         ('multipitch', 'metrics', 'gen_mp_metrics_assembly', ('suffix', 'compute_accuracy'))]
+SPEC2 = [('chord', 'overseg', 'gen_chord_overseg', None), ('chord', 'underseg', 'gen_chord_underseg', None),
+         ('chord', 'seg', 'gen_chord_seg', None),
+         ('util', 'intervals_to_boundaries', 'gen_util_intervals_to_boundaries', None),
+         ('util', 'intervals_to_durations', 'gen_util_intervals_to_durations', None),
+         ('util', 'boundaries_to_intervals', 'gen_util_boundaries_to_intervals', None),
+         ('segment', 'deviation', 'gen_segment_deviation', None),
+         ('chord', 'merge_chord_intervals', 'gen_chord_merge_chord_intervals', None)]
 # the functions that may be called (the same list as WrapExp.callee_names, tails excepted)
 CALLEES = [('transcription', 'validate'), ('transcription', 'validate_intervals'), ('transcription', 'match_notes'),
            ('transcription', 'match_note_onsets'), ('transcription', 'match_note_offsets'),
@@ -47,6 +63,15 @@ CALLEES = [('transcription', 'validate'), ('transcription', 'validate_intervals'
            ('util', 'f_measure'), ('util', 'match_events'), ('util', 'intervals_to_boundaries'),
            ('onset', 'validate'), ('beat', 'validate'), ('segment', 'validate_boundary'),
            ('multipitch', 'compute_accuracy'), ('multipitch', 'compute_err_score')]
+CALLEES2 = [('chord', 'directional_hamming_distance'), ('chord', 'overseg'), ('chord', 'underseg'),
+            ('util', 'validate_intervals'), ('util', 'intervals_to_boundaries'), ('segment', 'validate_boundary'),
+            ('chord', 'encode_many')]
+# NumPy functions and array methods used as primitives: (callee name, parameters with literal defaults)
+NUMPY = {'np.round': [('a', None), ('decimals', '(WInt (0)%Z)')], 'np.ravel': [('a', None)], 'np.unique': [('ar', None)],
+         'np.diff': [('a', None), ('n', '(WInt (1)%Z)'), ('axis', '(WInt (-1)%Z)')], 'np.abs': [('x', None)],
+         'np.allclose': [('a', None), ('b', None)], 'np.subtract.outer': [('A', None), ('B', None)],
+         'np.median': [('a', None)],
+         'ndarray.flatten': [('self', None)], 'ndarray.min': [('self', None), ('axis', 'WNoneE')]}
 EXN = {'ValueError', 'TypeError', 'KeyError', 'IndexError', 'ZeroDivisionError'}
 CMP = {ast.Eq: 'WEq', ast.NotEq: 'WNe', ast.Lt: 'WLt', ast.LtE: 'WLe', ast.Gt: 'WGt', ast.GtE: 'WGe'}
 BUILTINS = {'len', 'float', 'np', 'warnings', 'util', 'transcription'}
@@ -97,10 +122,14 @@ class Modules:
                     out.add(al.name)
         return out
 
+    def has_numpy(self, mod):
+        return any(isinstance(n, ast.Import) and any(al.name == 'numpy' and al.asname == 'np' for al in n.names)
+                   for n in self.tree(mod).body)
+
     def check_globals(self, mod):
         """names used to reach callees are not rebound at module level"""
         tree = self.tree(mod)
-        watched = self.submodules(mod) | {f for m, f in CALLEES if m == mod}
+        watched = self.submodules(mod) | {f for m, f in CALLEES + CALLEES2 if m == mod} | {'np'}
         for n in tree.body:
             targets = n.targets if isinstance(n, ast.Assign) else ([n.target] if isinstance(n, (ast.AugAssign, ast.AnnAssign)) else [])
             for t in targets:
@@ -131,8 +160,10 @@ class Modules:
 
 
 class Fn:
-    def __init__(self, mods, mod, fn, tail_after):
+    def __init__(self, mods, mod, fn, tail_after, callees=None, numpy=False):
         self.mods, self.mod, self.fn, self.tail_after = mods, mod, fn, tail_after
+        self.callees = CALLEES if callees is None else callees
+        self.numpy = numpy and mods.has_numpy(mod)
         self.params = [a.arg for a in fn.args.args]
         self.scope = list(self.params)
         self.subs = mods.submodules(mod)
@@ -142,16 +173,23 @@ class Fn:
         self.tail_sig = None
 
     def callee(self, f):
-        if isinstance(f, ast.Name) and (self.mod, f.id) in CALLEES and f.id not in self.scope:
+        if isinstance(f, ast.Name) and (self.mod, f.id) in self.callees and f.id not in self.scope:
             return self.mod, f.id
         if isinstance(f, ast.Attribute) and isinstance(f.value, ast.Name) and f.value.id in self.subs \
-                and f.value.id not in self.scope and (f.value.id, f.attr) in CALLEES:
+                and f.value.id not in self.scope and (f.value.id, f.attr) in self.callees:
             return f.value.id, f.attr
+        if self.numpy and 'np' not in self.scope:
+            name = ast.unparse(f)
+            if name in NUMPY and name.startswith('np.'):
+                return 'np', name[3:]
+            if isinstance(f, ast.Attribute) and 'ndarray.' + f.attr in NUMPY \
+                    and not (isinstance(f.value, ast.Name) and f.value.id in ('np', 'util', 'warnings')):
+                return 'ndarray', f.attr           # a method of an array expression: the receiver is the first argument
         return None
 
     def call_parts(self, n):
         m, f = self.callee(n.func)
-        pos = []
+        pos = [self.ex(n.func.value)] if m == 'ndarray' else []
         for a in n.args:
             if isinstance(a, ast.Starred):
                 fail('* argument', n)
@@ -177,6 +215,27 @@ class Fn:
             return '(WVar %s)' % cstr(n.id)
         if isinstance(n, ast.Attribute) and n.attr == 'size':
             return '(WSize %s)' % self.ex(n.value)
+        if isinstance(n, ast.List) and not n.elts and self.numpy:
+            return 'WEmptyList'
+        if isinstance(n, ast.Call) and isinstance(n.func, ast.Attribute) and n.func.attr == 'any' and not n.args and not n.keywords \
+                and isinstance(n.func.value, ast.Compare) and len(n.func.value.ops) == 1 and isinstance(n.func.value.ops[0], ast.NotEq) \
+                and self.numpy:
+            c = n.func.value
+            return '(WNeAny %s %s)' % (self.ex(c.left), self.ex(c.comparators[0]))
+        if isinstance(n, ast.Call) and ast.unparse(n.func) == 'np.array' and self.numpy and 'np' not in self.scope \
+                and len(n.args) == 1 and not n.keywords:
+            return '(WAsArray %s)' % self.ex(n.args[0])
+        if isinstance(n, ast.Subscript) and isinstance(n.slice, ast.Tuple) and len(n.slice.elts) == 2 and self.numpy:
+            a, b = n.slice.elts
+            if isinstance(a, ast.Slice) and a.lower is None and a.upper is None and a.step is None \
+                    and isinstance(b, ast.Constant) and b.value in (0, 1) and not isinstance(b.value, bool):
+                return '(WColumn %s %d%%nat)' % (self.ex(n.value), b.value)
+        if isinstance(n, ast.Attribute) and ast.unparse(n) == 'np.nan' and self.numpy and 'np' not in self.scope:
+            return 'WNan'
+        if isinstance(n, ast.BinOp) and isinstance(n.op, ast.Sub):
+            a = self.ex(n.left)
+            b = self.ex(n.right)
+            return '(WSub %s %s)' % (a, b)
         if isinstance(n, ast.BinOp) and isinstance(n.op, ast.Div):
             a = self.ex(n.left)
             b = self.ex(n.right)
@@ -199,6 +258,13 @@ class Fn:
             return out
         if isinstance(n, ast.Subscript):
             s = n.slice
+            def is_m1(b):
+                return (isinstance(b, ast.UnaryOp) and isinstance(b.op, ast.USub) and isinstance(b.operand, ast.Constant)
+                        and b.operand.value == 1)
+            if isinstance(s, ast.Slice) and s.step is None and s.lower is None and is_m1(s.upper):
+                return '(WInit %s)' % self.ex(n.value)
+            if isinstance(s, ast.Slice) and s.step is None and s.upper is None and isinstance(s.lower, ast.Constant) and s.lower.value == 1:
+                return '(WTail %s)' % self.ex(n.value)
             ok = (isinstance(s, ast.Slice) and s.step is None and isinstance(s.lower, ast.Constant) and s.lower.value == 1
                   and isinstance(s.upper, ast.UnaryOp) and isinstance(s.upper.op, ast.USub)
                   and isinstance(s.upper.operand, ast.Constant) and s.upper.operand.value == 1)
@@ -216,6 +282,19 @@ class Fn:
                 self.scope.append(t)
                 return '(WVar %s)' % cstr(t)
             name = ast.unparse(n.func)
+            if name == 'min' and 'min' not in self.scope and len(n.args) == 2 and not n.keywords:
+                a = self.ex(n.args[0])
+                b = self.ex(n.args[1])
+                return '(WMin %s %s)' % (a, b)
+            if name == 'np.asarray' and self.numpy and len(n.args) == 1 and not n.keywords:
+                z = n.args[0]
+                ok = (isinstance(z, ast.Call) and ast.unparse(z.func) == 'list' and len(z.args) == 1 and not z.keywords
+                      and isinstance(z.args[0], ast.Call) and ast.unparse(z.args[0].func) == 'zip'
+                      and len(z.args[0].args) == 2 and not z.args[0].keywords and not ({'list', 'zip'} & set(self.scope)))
+                if ok:
+                    a = self.ex(z.args[0].args[0])
+                    b = self.ex(z.args[0].args[1])
+                    return '(WPairs %s %s)' % (a, b)
             if name in ('len', 'float') and name not in self.scope and len(n.args) == 1 and not n.keywords:
                 return '(%s %s)' % ('WLen' if name == 'len' else 'WPyFloat', self.ex(n.args[0]))
             fail('call outside the accepted fragment', n)
@@ -229,7 +308,7 @@ class Fn:
         return pre + out
 
     def bind(self, x, node):
-        if x in BUILTINS or x in self.subs or (self.mod, x) in CALLEES or not (x.isidentifier() and x.isascii()):
+        if x in BUILTINS or x in self.subs or (self.mod, x) in self.callees or x in ('min', 'list', 'zip') or not (x.isidentifier() and x.isascii()):
             fail('assignment to a reserved or unusual name %r' % x, node)
         if x not in self.scope:
             self.scope.append(x)
@@ -288,7 +367,104 @@ class Fn:
             if s.cause is not None or name not in EXN or e.keywords or not all(isinstance(a, ast.Constant) for a in e.args):
                 fail('unsupported raise', s)
             return ['SRaise %s' % name]
+        if isinstance(s, ast.For) and self.numpy:
+            return self.loop(s)
         fail('statement outside the accepted fragment', s)
+
+    def loop(self, s):
+        it = s.iter
+        ok = (not s.orelse and isinstance(it, ast.Call) and ast.unparse(it.func) == 'zip' and not it.keywords and it.args
+              and isinstance(s.target, ast.Tuple) and len(s.target.elts) == len(it.args)
+              and all(isinstance(e, ast.Name) for e in s.target.elts) and 'zip' not in self.scope)
+        if not ok:
+            fail('only  for v1, ..., vk in zip(s1, ..., sk)  is accepted', s)
+        lvars = [e.id for e in s.target.elts]
+        if len(set(lvars)) != len(lvars) or any(v in self.scope for v in lvars):
+            fail('loop variables must be distinct new names', s)
+        for sub in ast.walk(s):
+            if isinstance(sub, (ast.Break, ast.Continue, ast.Return, ast.Raise)) or (isinstance(sub, ast.For) and sub is not s):
+                fail('break / continue / return / raise / nested loop inside a loop', sub)
+        seqs = self.with_pre(lambda: [self.ex(a) for a in it.args])
+        if len(seqs) != len(it.args):
+            fail('a call inside the zip arguments', s)
+        outer = list(self.scope)
+        for v in lvars:
+            self.bind(v, s)
+        body = self.loop_block(s.body)
+        assigned = []
+        for sub in ast.walk(ast.Module(body=s.body, type_ignores=[])):
+            names = []
+            if isinstance(sub, ast.Assign):
+                for t in sub.targets:
+                    for m in ast.walk(t):
+                        if isinstance(m, ast.Name):
+                            names.append(m.id)
+            elif isinstance(sub, ast.Expr) and isinstance(sub.value, ast.Call) and isinstance(sub.value.func, ast.Attribute) \
+                    and isinstance(sub.value.func.value, ast.Name):
+                names.append(sub.value.func.value.id)
+            for x in names:
+                if x in lvars:
+                    fail('a loop variable is assigned in the body', sub)
+                if x not in outer:
+                    fail('the body assigns %r, which is not bound before the loop' % x, sub)
+                if x not in assigned:
+                    assigned.append(x)
+        state = [v for v in outer if v in assigned]           # in the order in which they were bound before the loop
+        self.scope = outer                                    # loop variables are not used after the loop
+        return ['SFor [%s] [%s] [%s] [%s]' % ('; '.join(cstr(v) for v in lvars), '; '.join(seqs),
+                                            '; '.join(cstr(v) for v in state), '; '.join(body))]
+
+    def loop_block(self, stmts):
+        out = []
+        for st in stmts:
+            out.extend(self.loop_statement(st))
+        return out
+
+    def loop_statement(self, s):
+        if isinstance(s, ast.If):
+            c = self.with_pre(lambda: [self.ex(s.test)])
+            if len(c) != 1:
+                fail('a call in a loop condition', s)
+            return ['SIf %s [%s] [%s]' % (c[0], '; '.join(self.loop_block(s.body)), '; '.join(self.loop_block(s.orelse)))]
+        if isinstance(s, ast.Assign) and len(s.targets) == 1:
+            t = s.targets[0]
+            if isinstance(t, ast.Name):
+                e = self.with_pre(lambda: [self.ex(s.value)])
+                if len(e) != 1 or t.id not in self.scope:
+                    fail('unsupported assignment in a loop body', s)
+                return ['SLet %s %s' % (cstr(t.id), e[0])]
+            if isinstance(t, ast.Tuple) and isinstance(s.value, ast.Tuple) and len(t.elts) == len(s.value.elts) \
+                    and all(isinstance(x, ast.Name) and x.id in self.scope for x in t.elts):
+                targets = [x.id for x in t.elts]
+                for v in s.value.elts:
+                    if any(isinstance(m, ast.Name) and m.id in targets for m in ast.walk(v)):
+                        fail('a simultaneous assignment whose right-hand side reads a target', s)
+                es = self.with_pre(lambda: [self.ex(v) for v in s.value.elts])
+                if len(es) != len(targets) or len(set(targets)) != len(targets):
+                    fail('unsupported tuple assignment in a loop body', s)
+                return ['SLet %s %s' % (cstr(x), e) for x, e in zip(targets, es)]
+            # l[-1][-1] = e
+            def is_m1(b):
+                return (isinstance(b, ast.UnaryOp) and isinstance(b.op, ast.USub) and isinstance(b.operand, ast.Constant)
+                        and b.operand.value == 1)
+            if isinstance(t, ast.Subscript) and is_m1(t.slice) and isinstance(t.value, ast.Subscript) and is_m1(t.value.slice) \
+                    and isinstance(t.value.value, ast.Name) and t.value.value.id in self.scope:
+                x = t.value.value.id
+                e = self.with_pre(lambda: [self.ex(s.value)])
+                if len(e) != 1:
+                    fail('a call in a loop body', s)
+                return ['SLet %s (WSetLastSnd (WVar %s) %s)' % (cstr(x), cstr(x), e[0])]
+        if isinstance(s, ast.Expr) and isinstance(s.value, ast.Call):
+            c = s.value
+            if isinstance(c.func, ast.Attribute) and c.func.attr == 'append' and isinstance(c.func.value, ast.Name) \
+                    and c.func.value.id in self.scope and len(c.args) == 1 and not c.keywords \
+                    and isinstance(c.args[0], ast.List) and len(c.args[0].elts) == 2:
+                x = c.func.value.id
+                es = self.with_pre(lambda: [self.ex(v) for v in c.args[0].elts])
+                if len(es) != 2:
+                    fail('a call in a loop body', s)
+                return ['SLet %s (WAppendPair (WVar %s) %s %s)' % (cstr(x), cstr(x), es[0], es[1])]
+        fail('statement outside the accepted loop fragment', s)
 
     def block(self, stmts):
         out = []
@@ -362,6 +538,8 @@ class Fn:
             stmts = self.block(body[start:])
         elif self.tail_after is None:
             for sub in ast.walk(fn):
+                if isinstance(sub, ast.For) and self.numpy:
+                    continue
                 if isinstance(sub, (ast.Lambda, ast.FunctionDef, ast.Global, ast.Nonlocal, ast.NamedExpr, ast.Await, ast.Yield,
                                     ast.For, ast.While, ast.Try, ast.With, ast.Starred, ast.AugAssign, ast.Delete)) and sub is not fn:
                     fail('%s: unsupported construct' % fn.name, sub)
@@ -384,6 +562,12 @@ def generate():
         if f.tail_sig:
             tails.append(f.tail_sig)
     sigs = [('%s.%s' % (m, f), mods.signature(m, f)) for m, f in CALLEES] + tails
+    progs2 = []
+    for mod, py, coq, tail_after in SPEC2:
+        mods.check_globals(mod)
+        f = Fn(mods, mod, top_func(mods.tree(mod), py), tail_after, callees=CALLEES2, numpy=True)
+        progs2.append((mod, py, coq, f.run()))
+    sigs2 = [('%s.%s' % (m, f), mods.signature(m, f)) for m, f in CALLEES2] + sorted(NUMPY.items())
     t = HEADER
     t += '(* wrapper metric functions as programs of Model/WrapExp.v, and the signatures of the functions they call *)\n'
     t += 'From Coq Require Import String.\nFrom Coq Require Import List ZArith QArith.\nFrom ME Require Import Model.Prelude Model.WrapExp.\n'
@@ -392,5 +576,11 @@ def generate():
         '  (%s, [%s])' % (cstr(name), '; '.join('(%s, %s)' % (cstr(p), 'None' if d is None else 'Some %s' % d) for p, d in ps))
         for name, ps in sigs)
     for mod, py, coq, text in progs:
+        t += '(* %s.%s *)\nDefinition %s : wprog :=\n  %s.\n' % (mod, py, coq, text)
+    t += '(* ---- second group ---- *)\n'
+    t += 'Definition callee_sigs2 : list (string * sigt) := [\n%s].\n' % ';\n'.join(
+        '  (%s, [%s])' % (cstr(name), '; '.join('(%s, %s)' % (cstr(p), 'None' if d is None else 'Some %s' % d) for p, d in ps))
+        for name, ps in sigs2)
+    for mod, py, coq, text in progs2:
         t += '(* %s.%s *)\nDefinition %s : wprog :=\n  %s.\n' % (mod, py, coq, text)
     return {'WrapFuncs.v': t}
